@@ -3,8 +3,8 @@ import GnarkVerif.Props.C07
 /-
 C07_codec_gen — tie T for the FLAG DISPATCH of the point codecs (G1): `isZeroed`, `isCompressed`, `isMaskInvalid`, `(*G1Affine).Bytes`,
 `RawBytes`, `setBytes`, `SetBytes` of `ecc/<curve>/marshal.go` are RE-TRANSLATED statement by statement on every run
-(tools/goslp/pointcodec.go → Gen/PointCodec/<curve>.lean; 9 Weierstrass packages: bn254, grumpkin, stark-curve — 2 flag bits —
-and bls12-377, bls12-381, bls24-315, bls24-317, bw6-633, bw6-761 — 3 flag bits) and proved here to compute the decoder of the hand model
+(tools/goslp/pointcodec.go → Gen/PointCodec/<curve>.lean; the 10 Weierstrass packages: bn254, grumpkin, stark-curve — 2 flag bits —,
+bls12-377, bls12-381, bls24-315, bls24-317, bw6-633, bw6-761 — 3 flag bits —, and secp256k1 — no flag, `RawBytes` / `setBytes` only) and proved here to compute the decoder of the hand model
 (Model/PointCodec.lean) for EVERY byte string, so that the theorems of Props/C07.lean are theorems about the translated Go text.
 
 What is translated: the length checks, `mData := buf[0] & mMask`, `isMaskInvalid`, every flag comparison, the "infinity must have a zero
@@ -30,7 +30,7 @@ so an edit of one package's marshal.go breaks that package's `rfl`, an edit of t
 `Bytes` / `RawBytes` (section 1b): the generated encoders write exactly `encCompressed` / `encRaw` of the model for every receiver pair with
 canonical coordinates (`EncodesC`, `EncodesR`; the flag OR-ed into the first byte = `code · 2^(8·fb−k)` added to the big-endian value, which
 needs `p ≤ 2^(8·fb−k)` of `Codec.OK`); `isZeroed` = "big-endian value zero", `isCompressed` = "flag is not an uncompressed one" for all 256 bytes.
-Not covered: secp256k1 (its own raw-only marshal.go), G2 (tower coordinate = sequence of element codecs), the stream Encoder / Decoder,
+Not covered: G2 (tower coordinate = sequence of element codecs), the stream Encoder / Decoder,
 `unsafeSetCompressedBytes` / `unsafeComputeY`.
 -/
 namespace GV.PointCodec
@@ -303,6 +303,23 @@ theorem C07codec_helpers_bw6_761 :
     (∀ (b : UInt8) (l : List UInt8), GV.Gen.PointCodec.bw6_761.isZeroed b l = decide (beToNat (b :: l) = 0)) ∧
     (∀ b : UInt8, GV.Gen.PointCodec.bw6_761.isCompressed b = (!(Layout.three.classify (b.toNat / 32) == .unc || Layout.three.classify (b.toNat / 32) == .uncInf))) :=
   ⟨fun b l => by rw [bw6_761_isZeroed, goIsZeroed_eq], by apply byte_forall; decide +kernel⟩
+
+/-! ## 1c. secp256k1 (raw encoding only: no flag, no compressed form, `Layout.raw`) -/
+
+theorem C07codec_setBytes_secp256k1 (P : Prims α) (C : Codec α) (g : α → α) (R : Rel P C g) (hL : C.L = .raw) (hfb : C.fb = 32) :
+    Refines C (GV.Gen.PointCodec.secp256k1.G1_setBytes P) := by
+  intro pX pY buf sub
+  rw [secp256k1_setBytes, ← hfb]
+  exact goSetBytesRaw_refines P C g R hL pX pY buf sub
+
+theorem C07codec_SetBytes_secp256k1 (P : Prims α) (pX pY : α) (buf : List UInt8) :
+    GV.Gen.PointCodec.secp256k1.G1_SetBytes P pX pY buf = GV.Gen.PointCodec.secp256k1.G1_setBytes P pX pY buf true := rfl
+
+theorem C07codec_RawBytes_secp256k1 (P : Prims α) (C : Codec α) (g : α → α) (R : Rel P C g) (h : C.OK) (hL : C.L = .raw)
+    (hfb : C.fb = 32) : EncodesR C (GV.Gen.PointCodec.secp256k1.G1_RawBytes P) := by
+  intro x y hx hy
+  rw [secp256k1_RawBytes, ← hfb]
+  exact goRawBytesRaw_eq P C g R h hL x y hx hy
 
 /-! ## 2. the Go-exact decoder against the property -/
 
